@@ -531,6 +531,11 @@ class SList:
         self.segs.extend(as_segs(it))
         self._norm()
 
+    def pop(self, i=-1):
+        v = self._sym_getitem(i)
+        self._sym_delitem(i)
+        return v
+
     def insert(self, i, v):
         n = self._sym_len()
         p = clamp_index(i, n, 0)
